@@ -57,7 +57,10 @@ def gen_policy(rng: random.Random, tier: str) -> dict:
 
     spec = gen_spec(rng)
     n = rng.choice([5, 10, 20, 40, 80])
-    return {"policy": spec, "ops": gen_ops(rng, n), "seed": rng.randrange(1 << 30)}
+    from hsverif.c08_pipe import BIG_ORIGINS_NS
+
+    base = rng.choice(BIG_ORIGINS_NS) if rng.random() < 0.3 else 0
+    return {"policy": spec, "ops": gen_ops(rng, n), "base_ns": base, "seed": rng.randrange(1 << 30)}
 
 
 def run_policy(case: dict) -> Result:
@@ -69,14 +72,15 @@ def run_policy(case: dict) -> Result:
     res = Result()
     random.seed(case["seed"])
     spec = case["policy"]
-    clk = [0]
+    base = int(case.get("base_ns", 0))  # clock origin: policies must order by integer ns at any absolute time
+    clk = [base]
     policy = build_policy(spec, lambda: Instant(clk[0]))
     audit = PolicyAudit(spec, policy)
     for op in case["ops"]:
         k = op[0]
         if k == "push":
-            _, iid, prio, dl, flow = op
-            it = Item(iid, prio, max(0, dl) * TICK_NS, flow)
+            _, iid, prio, dl, flow = op[:5]
+            it = Item(iid, prio, base + max(0, dl) * TICK_NS + (op[5] if len(op) > 5 else 0), flow)
             before = len(policy)
             ok = policy.push(it)
             audit.on_push(attrs_of(it), ok, before, clk[0])
@@ -98,6 +102,8 @@ def run_policy(case: dict) -> Result:
     res.count("policy_ops", audit.ops)
     res.count("policy_pops_with_choice", 1 if audit.saw_order_choice else 0)
     res.seen("policies", audit.comp)
+    if base:
+        res.count("policy_cases_at_huge_absolute_time")
     res.nontrivial = audit.nontrivial()
     return res
 
